@@ -262,6 +262,23 @@ def check_formula(ctx, case) -> None:
                     ctx.fail("array-value", case, {"text": text, "via": via, "row": i,
                                                    "env": {k: env[k] for k in sorted(used)},
                                                    "got": float(a[i]), "expected": ref[0], "expected_math": ref[1]})
+    # the engine's variable lists are looked up at every evaluation: replace the object behind "A", append another
+    # variable, and evaluate once more
+    if "A" in used and rows:
+        env2 = dict(rows[-1])
+        env2["A"] = env2["A"] + 1.0 if math.isfinite(env2["A"]) else 0.5
+        try:
+            ref2 = (rf.evaluate(tree, env2), rf.evaluate_py(tree, env2))
+        except rf.Unknown:
+            ref2 = None
+        if ref2 is not None:
+            engine.input_variables[0] = fl.InputVariable("A", minimum=-1e300, maximum=1e300)
+            engine.input_variables.append(fl.InputVariable("Zextra", minimum=0.0, maximum=1.0))
+            got2 = float(to_float(impl_eval(f, engine, env2, env2["x"], "membership")).reshape(-1)[0])
+            if not close(got2, ref2[0], ref2[1]):
+                ctx.fail("value-after-variable-replaced", case, {"text": text, "env": {k: env2[k] for k in sorted(used)},
+                                                                 "got": got2, "expected": ref2[0]})
+            ctx.cls("variable_object_replaced")
     if nontrivial(tree):
         ctx.nt(text, {"text": text, "postfix": got_pf, "mode": mode,
                       "env": {k: rows[0][k] for k in sorted(used)}, "expected": refs[0][0] if refs[0] else None})
